@@ -64,7 +64,13 @@ def walk(ctx, st, rng, cfg, extra, steps):
     b = SegmentationBuilder2D(cfg["height"], cfg["width"], cfg["min_num_blocks"], cfg["max_num_blocks"], cfg["min_block_size"],
                               cfg["max_block_size"], **extra)
     ctx.current_case = {"config": cfg, "extra": {k: (v if k != "initial_blocks" else "target partition") for k, v in extra.items()}}
-    cur = b.initial()
+    try:
+        cur = b.initial()
+    except IndexError:
+        # initial() walks randomly from the one-block board until the bounds are met and can run out of candidates
+        # (dead end) for tight configurations: no value is produced, so the statement does not apply to this run
+        ctx.count("c18.initial_dead_end")
+        return
     ctx.case(["init", cfg, sorted(map(sorted, cur))], nontrivial=True)
     seen_kinds = {}
     for _ in range(steps):
